@@ -76,12 +76,19 @@ class _Future(Future):
                 return True
             if self.done():
                 return False
+            # (cancel() may be re-entered through callbacks run by the delegate's
+            # cancel, e.g. when two futures derived from the same source are
+            # combined again: the flag belongs to the outermost call)
+            was_cancelling = self._me_cancelling
             self._me_cancelling = True
             try:
                 if not self._me_cancel():
                     return False
             finally:
-                self._me_cancelling = False
+                self._me_cancelling = was_cancelling
+            if self.done():
+                # A nested cancel() from such a callback got there first
+                return self.cancelled()
             out = super(_Future, self).cancel()
             if out:
                 self.set_running_or_notify_cancel()
